@@ -270,6 +270,25 @@ def rule_bytes(ctx, f):
             # z is read as the FIRST symbol of a group only: the switch's subject comes from the first next() of an iteration
         ctx.check(okz, "C05-TABLE", "enc::decode_85#z", "`z` is not expanded to four zero bytes at a group boundary", db["span"], detail="'z' -> [0;4], other positions reject it (sym_85)")
         ctx.check(gt is not None, "C05-TABLE", "enc::decode_85#eod2", "`~` is not required to be followed by `>`", db["span"], detail="'~' must be followed by '>'")
+        # a short final group is completed with the highest digit `u` (84): the constants the decoder fills five-digit groups with
+        pads = set()
+        ngroups = 0
+        for i, j, st in F.stmts(db):
+            if st[0] != "assign":
+                continue
+            rv = st[2]
+            if rv[0] == "aggregate" and rv[1].get("k") == "array" and rv[1].get("elem") == "u8" and len(rv[2]) == 5:
+                cs = [F.const_int(o) for o in rv[2] if o[0] == "const"]
+                if cs:
+                    ngroups += 1
+                    pads |= set(cs)
+            elif rv[0] == "repeat" and str(rv[2]) in ("5", "const 5") and rv[1][0] == "const":
+                ngroups += 1
+                pads.add(F.const_int(rv[1]))
+        ctx.floor("C05-TABLE", ngroups, 4, "partially filled five-digit groups in decode_85")
+        ctx.check(pads == {SPEC["ascii85"]["last"]}, "C05-TABLE", "enc::decode_85#tail-pad",
+                  "a short final ASCII85 group is completed with %s (the specification's decoder pads with `u`, the highest digit): the last bytes of data "
+                  "whose length is not a multiple of 4 come out wrong" % fmt_set(pads), db["span"], detail="pad digit 'u'")
     # --- run length
     rb = None
     tb = f.body("enc::decode")
